@@ -1839,6 +1839,21 @@ where
             if is_ident_string_data_type(self.state.cddl, ident)
               || is_ident_numeric_data_type(self.state.cddl, ident)
             {
+              // a value of another class than the controller literal differs from it
+              let differs_by_class = match controller {
+                Type2::TextValue { .. } => !matches!(self.cbor, Value::Text(_)),
+                Type2::UintValue { .. } | Type2::IntValue { .. } | Type2::FloatValue { .. } => {
+                  !matches!(self.cbor, Value::Integer(_) | Value::Float(_))
+                }
+                Type2::UTF8ByteString { .. }
+                | Type2::B16ByteString { .. }
+                | Type2::B64ByteString { .. } => !matches!(self.cbor, Value::Bytes(_)),
+                _ => false,
+              };
+              if differs_by_class {
+                return Ok(());
+              }
+
               self.state.ctrl = Some(ctrl);
               self.visit_type2(controller)?;
               self.state.ctrl = None;
